@@ -24,6 +24,17 @@ EncVector(bits, n) ==
     EncryptStep("a", pt, Sys), DecryptStep("a", Ref(5, "ct"), DecOk(pt)),
     EncryptStep("b", pt, Sys) >>)
 
+\* what the random source delivers is arbitrary: every octet it can deliver, as the ONLY octet it delivers (a pad-length or block-count
+\* decision taken from a drawn octet meets all 256 values), for the plaintext lengths around the block boundaries; the size law, the
+\* inverse and "the IV is what the source delivered" hold whatever the octets are
+ConstLens == << 0, 1, 14, 15, 16, 17, 31, 32, 47, 255 >>
+ConstVector(bits, v) ==
+  LET rnd == [mode |-> "const", val |-> v, seed |-> v] IN
+  Vector("cipher_const", << CipherNew("a", bits, KeyT(bits, 5)), CipherNew("b", bits, KeyT(bits, 5)) >>
+    \o Flat([q \in 1..Len(ConstLens) |->
+          LET pt == FillT("seeded", ConstLens[q], Seed + q + v) IN
+          << EncryptStep("a", pt, rnd), DecryptStep("b", Ref(2 * q + 1, "ct"), DecOk(pt)) >>]))
+
 \* decrypt of spec-built ciphertext: L octets in total, recovered pad-length octet v
 DecVector(bits, L) ==
   LET key == KeyT(bits, 2) iv == FillT("ramp", 16, L) IN
@@ -53,14 +64,15 @@ HistVector(k) ==
 
 Init == stage = 0 /\ kind = "" /\ a = 0 /\ b = 0
 Next ==
-  \/ stage = 0 /\ stage' = 1 /\ kind' \in {"enc", "dec", "key", "hist"} /\ a' \in Bits3 /\ b' = 0
+  \/ stage = 0 /\ stage' = 1 /\ kind' \in {"enc", "dec", "key", "hist", "const"} /\ a' \in Bits3 /\ b' = 0
   \/ stage = 1 /\ stage' = 2 /\ UNCHANGED << kind, a >>
      /\ b' \in CASE kind = "enc" -> { n \in PtLensAll : n <= 4096 /\ (Thorough \/ n <= 64 \/ a = 128 + 64 * (n % 3)) }
                  [] kind = "dec" -> (0..96) \cup {272, 288, 304, 528, 1040, 4112}      \* (bodies beyond 256 octets: every pad-length octet fits)
                  [] kind = "key" -> {0}
+                 [] kind = "const" -> { x \in 0..255 : Thorough \/ a = 128 + 64 * (x % 3) }
                  [] OTHER -> IF a = 128 THEN 0..7 ELSE {}
   \/ stage = 2 /\ UNCHANGED << stage, kind, a, b >>
-Vec == CASE kind = "enc" -> EncVector(a, b) [] kind = "dec" -> DecVector(a, b) [] kind = "key" -> WrongKeyVector(a) [] OTHER -> HistVector(b)
+Vec == CASE kind = "enc" -> EncVector(a, b) [] kind = "dec" -> DecVector(a, b) [] kind = "key" -> WrongKeyVector(a) [] kind = "const" -> ConstVector(a, b) [] OTHER -> HistVector(b)
 Relabel(v) == [v EXCEPT !.steps = [q \in 1..Len(v.steps) |-> [v.steps[q] EXCEPT !.prop = PropId]]]
 Emit == stage = 2 => PrintT(ToJson(Relabel(Vec)))
 Sound == TRUE
